@@ -2,6 +2,7 @@
 //!
 //! `vasmarm quick|thorough|--replay <file>`  (cwd = /verif)
 
+mod dora;
 mod enc;
 mod labels;
 mod llvm;
@@ -128,12 +129,38 @@ fn run(tier: String) -> i32 {
     // ---- helper predicates
     preds::run(&mut ctx);
 
+    // ---- the assembler written in Dora (same-named methods, same oracle)
+    let dp = dora::DoraAsm::new();
+    match dora::available() {
+        Ok(()) => {
+            ctx.run_regressions(&dp);
+            let mut sel = if ctx.thorough() { dora::select(&enc::sweep(), 2, 1) } else { dora::select(&enc::sweep(), 6, 5) };
+            // the reproducers of the open findings of this sub-check ride along in the same compilation
+            // (one `dora compile` per reproducer would dominate the quick tier)
+            for k in load_known_findings() {
+                if k.property == "C08" && k.status == "open" && k.sub == "dora-assembler" {
+                    if let Some(b) = dp.from_rendered(&k.reproducer) {
+                        sel.extend(b.insts);
+                    }
+                }
+            }
+            ctx.run_enum(&dp, vec![Batch { insts: sel }]);
+            if ctx.thorough() {
+                ctx.run_search(&dp, 6, 4000 * 9, 0);
+            }
+        }
+        Err(e) => {
+            ctx.extra.insert("dora_assembler_subcheck".into(), json!(format!("skipped: {e}")));
+        }
+    }
+
     // ---- evidence: count instances, not batches
     let batches = ctx.evaluations;
     let es = ep.stats.lock().unwrap();
     let ls = lp.stats.lock().unwrap();
+    let ds = dp.stats.lock().unwrap();
     let pred_evals = ctx.extra.get("predicate_evaluations").and_then(|v| v.as_u64()).unwrap_or(0);
-    ctx.evaluations = es.instances + ls.sites + pred_evals;
+    ctx.evaluations = es.instances + ls.sites + pred_evals + ds.compared;
     ctx.extra.insert("llvm_batches".into(), json!(batches));
     ctx.extra.insert("encoding_instances".into(), json!(es.instances));
     ctx.extra.insert("label_reference_instances".into(), json!(ls.sites));
@@ -147,6 +174,23 @@ fn run(tier: String) -> i32 {
     for (k, v) in &ls.classes {
         *ctx.classes.entry(format!("labels/{k}")).or_insert(0) += v;
     }
+    for (k, v) in &ds.classes {
+        *ctx.classes.entry(format!("dora-assembler/{k}")).or_insert(0) += v;
+    }
+    ctx.nontrivial.extend(ds.nontrivial.iter().copied());
+    if ds.compared > 0 || !ds.harness_errors.is_empty() {
+        let mut mc: Vec<&&str> = ds.methods_compared.iter().collect();
+        mc.sort();
+        ctx.extra.insert(
+            "dora_assembler_subcheck".into(),
+            json!({
+                "instances_compared": ds.compared,
+                "methods_compared": mc.len(),
+                "not_comparable": ds.not_comparable,
+                "accepted_by_rust_but_refused_by_dora": ds.refused_by_dora,
+            }),
+        );
+    }
     ctx.samples = es.samples.clone();
     let never_accepted: Vec<&str> = table::rows().iter().map(|r| r.name).filter(|m| es.per_method.get(m).map(|c| c.1 == 0).unwrap_or(true)).collect();
     let known: Vec<&String> = ep.known_keys.iter().collect();
@@ -158,9 +202,10 @@ fn run(tier: String) -> i32 {
     }
     ctx.extra.insert("per_method_instances".into(), json!(es.per_method.iter().map(|(k, v)| (k.to_string(), json!([v.0, v.1]))).collect::<serde_json::Map<String, Value>>()));
     ctx.extra.insert("tolerated_refusals_of_legal_operands".into(), json!(enc::TOLERATED_REFUSALS.lines().collect::<Vec<_>>()));
-    let herr: Vec<String> = es.harness_errors.iter().chain(ls.harness_errors.iter()).cloned().collect();
+    let herr: Vec<String> = es.harness_errors.iter().chain(ls.harness_errors.iter()).chain(ds.harness_errors.iter()).cloned().collect();
     drop(es);
     drop(ls);
+    drop(ds);
     if let Some(e) = herr.first() {
         hard(&mut ctx, format!("harness/tool trouble in {} batch(es), first: {e}", herr.len()));
     }
@@ -183,6 +228,13 @@ fn replay(doc: &Value) -> i32 {
     }
     match doc["sub"].as_str() {
         Some("labels") => ctx.replay(&Labels::new(48), doc),
+        Some("dora-assembler") => match dora::available() {
+            Ok(()) => ctx.replay(&dora::DoraAsm::new(), doc),
+            Err(e) => {
+                println!("INCONCLUSIVE property=C08 {e}");
+                2
+            }
+        },
         Some("predicates") => {
             // predicates are deterministic and cheap: re-run the whole comparison in strict mode
             ctx.strict = true;
@@ -249,6 +301,31 @@ fn main() {
             for (k, (n, m, j)) in &lseen {
                 println!("{k}\t{n}\t{m}\t{j}");
             }
+            return;
+        }
+        Some("--dora") => {
+            // developer aid: only the Dora assembler comparison, all failures listed
+            enc::install_fast_hook();
+            let div: u64 = args.get(1).and_then(|s| s.parse().ok()).unwrap_or(6);
+            let div_all: u64 = args.get(2).and_then(|s| s.parse().ok()).unwrap_or(5);
+            let sel = dora::select(&enc::sweep(), div, div_all);
+            println!("{} instances selected", sel.len());
+            let mut st = dora::DStats::default();
+            let t0 = std::time::Instant::now();
+            match dora::eval_dora(&sel, &mut st) {
+                Ok(f) => {
+                    let mut keys: std::collections::BTreeMap<String, (usize, String)> = Default::default();
+                    for (_, k, m) in f {
+                        let e = keys.entry(k).or_insert((0, m));
+                        e.0 += 1;
+                    }
+                    for (k, (n, m)) in keys {
+                        println!("{k}\t{n}\t{m}");
+                    }
+                }
+                Err(e) => println!("ERROR {e}"),
+            }
+            println!("compared {} methods {} in {:.1}s; not comparable: {:#?}; refused by dora: {:#?}", st.compared, st.methods_compared.len(), t0.elapsed().as_secs_f64(), st.not_comparable, st.refused_by_dora);
             return;
         }
         Some("--call") => {
